@@ -695,6 +695,10 @@ func runC08(c *RunCtx) {
 	all := append(cloneBytes(w), tail...)
 	shape := drawBufShape(t)
 	buf := shape.build(c, all)
+	var backing []byte
+	if b := buf.Bytes(); cap(b) > 0 {
+		backing = b[:min(cap(b), len(b)+64)]
+	}
 	recv := newValue(name)
 	if t.Intn(4) == 3 {
 		// the receiver object is reused: it decoded another message of this type before
@@ -768,6 +772,9 @@ func runC08(c *RunCtx) {
 		// the application keeps the decoded message; the next message of the type arrives and is
 		// decoded into another receiver (and, half of the time, sent on); then the kept message
 		// is encoded again
+		for i := range backing {
+			backing[i] ^= 0x5C // the receive buffer is recycled for the next read
+		}
 		other := newValue(name)
 		if rr := tryDecode(other, bytes.NewBuffer(laterWire)); rr.Err == nil && rr.Panic == nil && t.Intn(2) == 0 {
 			tryEncode(other, &bytes.Buffer{})
@@ -777,7 +784,7 @@ func runC08(c *RunCtx) {
 		c.Fire("hist.later-reencode")
 		c.Oracle("later-reencode-same-bytes")
 		if r3.Panic != nil || r3.Err != nil || !bytes.Equal(again.Bytes(), e) {
-			c.Fail("C08/later-reencode-differs", name, "the decoded %s re-encoded to the consumed bytes at first, but after another message of the type had been decoded and encoded in between, encoding the same (kept) object gives different bytes (err=%v panic=%v, first difference at %d): what the decoder handed out did not stay the caller's", name, r3.Err, r3.Panic, firstDiff(again.Bytes(), e))
+			c.Fail("C08/later-reencode-differs", name, "the decoded %s re-encoded to the consumed bytes at first, but after the receive buffer had been recycled and another message of the type decoded (and encoded) in between, encoding the same (kept) object gives different bytes (err=%v panic=%v, first difference at %d): what the decoder handed out did not stay the caller's", name, r3.Err, r3.Panic, firstDiff(again.Bytes(), e))
 			return
 		}
 	}
@@ -1138,12 +1145,19 @@ func runC15(c *RunCtx) {
 		if !ok {
 			return
 		}
+		ow := other.w
+		how = "previously decoded another " + name
+		if t.Intn(3) == 0 {
+			if aw, ok := appendedFields(t, other.w, name); ok {
+				ow = aw
+				how = "previously decoded another " + name + " from a peer on a newer protocol revision (extra bytes behind the body, length field covering them)"
+			}
+		}
 		dirty = newValue(name)
-		if rr := tryDecode(dirty, bytes.NewBuffer(cloneBytes(other.w))); rr.Err != nil || rr.Panic != nil {
+		if rr := tryDecode(dirty, bytes.NewBuffer(cloneBytes(ow))); rr.Err != nil || rr.Panic != nil {
 			c.Probe("skip.dirtying-decode-failed")
 			return
 		}
-		how = "previously decoded another " + name
 		c.LogValue("RECEIVER HELD", dirty)
 	case 2:
 		saved := g.cfg
@@ -1197,6 +1211,16 @@ func runC15(c *RunCtx) {
 	if c.Tracing {
 		c.LogValue("RECEIVER NOW HOLDS", dirty)
 	}
+	if t.Intn(2) == 0 {
+		// the application logged what it had received
+		if st, ok := dirty.(fmt.Stringer); ok {
+			func() {
+				defer func() { recover() }()
+				_ = st.String()
+			}()
+			how += ", and was printed (String()) afterwards"
+		}
+	}
 	if same, _ := Equal(dirty, newValue(name)); !same {
 		c.Fire("recv.dirty")
 	}
@@ -1223,7 +1247,36 @@ func runC15(c *RunCtx) {
 		c.LogValue("FRESH RESULT", fresh)
 		c.LogValue("DIRTY RESULT", dirty)
 		c.Fail("C15/leftover", name, "decoding the same %d bytes of %s into a receiver that %s gives a different message than into a fresh receiver, at %s", len(w), name, how, d)
+		return
 	}
+	// equal in every exported field; the two messages must also BEHAVE the same (state kept
+	// outside the exported fields shows here): same text form, same bytes when encoded
+	c.Oracle("dirty-behaves-like-fresh")
+	sf, okf := safeString(fresh)
+	sd, okd := safeString(dirty)
+	if okf && okd && sf != sd {
+		c.Fail("C15/observable-differs", name, "the same %d bytes of %s decoded into a fresh receiver and into one that %s are equal field by field but print differently: fresh %q, reused %q", len(w), name, how, clip(sf), clip(sd))
+		return
+	}
+	var ef, ed bytes.Buffer
+	rf := tryEncode(Clone(fresh), &ef)
+	rd := tryEncode(dirty, &ed)
+	if (rf.Err != nil || rf.Panic != nil) != (rd.Err != nil || rd.Panic != nil) || !bytes.Equal(ef.Bytes(), ed.Bytes()) {
+		c.Fail("C15/observable-differs", name, "the same %d bytes of %s decoded into a fresh receiver and into one that %s are equal field by field but encode differently (fresh: %d bytes err=%v; reused: %d bytes err=%v; first difference at %d)", len(w), name, how, ef.Len(), rf.Err, ed.Len(), rd.Err, firstDiff(ef.Bytes(), ed.Bytes()))
+	}
+}
+
+func safeString(v any) (s string, ok bool) {
+	st, is := v.(fmt.Stringer)
+	if !is {
+		return "", false
+	}
+	defer func() {
+		if recover() != nil {
+			ok = false
+		}
+	}()
+	return st.String(), true
 }
 
 // ---------------------------------------------------------------- C16
